@@ -211,6 +211,12 @@ func runCheck(id string) int {
 		}
 		total.Info["shards"] = n
 	}
+	if os.Getenv("VERIF_PLAIN") == "1" {
+		// check.sh could not build the instrumented tree: scheduler explorations had no statement-level
+		// scheduling points and no access records (races invisible); what ran is reported, not as exhaustive
+		total.Note("built without access instrumentation (the instrumented tree did not compile): data-race detection and statement-level interleavings were not available")
+		total.Exhaustive = false
+	}
 	if d.post != nil && total.Exhaustive {
 		d.post(&Ctx{Part: total, ID: id, Tier: tier, Seed: seed, Shard: 0, Shards: 1, Deadline: start.Add(time.Duration(deadlineS) * time.Second), VerifDir: verifDir})
 	}
